@@ -12,7 +12,7 @@ import (
 func init() {
 	register("C12", &propDef{
 		Title: "Failures are reported, never turned into silently partial results",
-		Rules: []func(*Checker){ruleC12Errors, ruleC12Illegal, ruleC12Whole, ruleC12Poison, ruleC12Closed, ruleC12Manifest, ruleC12Diags, ruleC12DiagCopy, ruleRootLink("C12.rootlink"), ruleTraceCalls("C12.calls"), ruleLockBalanced("C12.balanced"), ruleC12DiagSource, ruleFilesClosed("C12.closed"), ruleWritersClosed("C12.writers"), ruleWalkErrParam("C12.walkerr")},
+		Rules: []func(*Checker){ruleC12Errors, ruleC12Illegal, ruleC12Whole, ruleC12Poison, ruleC12Closed, ruleC12Manifest, ruleC12Diags, ruleC12DiagCopy, ruleRootLink("C12.rootlink"), ruleTraceCalls("C12.calls"), ruleLockBalanced("C12.balanced"), ruleC12DiagSource, ruleFilesClosed("C12.closed"), ruleWritersClosed("C12.writers"), ruleWalkErrParam("C12.walkerr"), ruleBundleWalkChain("C12.bundlechain")},
 		NotDecided: []string{
 			"behaviour at a given byte offset; what archive/tar and compress/gzip report on truncation (library)",
 			"which error text is produced",
@@ -1178,6 +1178,78 @@ func ruleC12Diags(c *Checker) {
 		}
 	}
 	c.check(traced, R, name, "finder diagnostics traced", p.Pos(fd.Pos()), "handed to BuildTracer.Diagnostics", "finder diagnostics are no longer reported to the tracer")
+	// the rewriting is applied to the finder's result, its result is what the tracer gets, and it is appended
+	// to what was accumulated before (not the other way round)
+	var rewrite *ssa.Call
+	for _, ci := range callsIn(host) {
+		if cl, ok := ci.(*ssa.Call); ok && cl.Common().StaticCallee() != nil && p.InModule(cl.Common().StaticCallee()) && isDiagnosticsType(cl.Type()) && len(cl.Call.Args) > 0 && isDiagnosticsType(cl.Call.Args[0].Type()) {
+			if strings.Contains(strings.ToLower(cl.Common().StaticCallee().Name()), "package") {
+				rewrite = cl
+			}
+		}
+	}
+	if rewrite == nil {
+		c.fail(R, name, "finder diagnostics rewritten per package", p.Pos(fd.Pos()), "no per-package rewriting of diagnostics is applied in the draining function")
+	} else {
+		c.check(canon(rewrite.Call.Args[0]) == ssa.Value(fd), R, name, "the finder's own result is what is rewritten", p.Pos(rewrite.Pos()), "rewrite(receiver = FindDependencies result)", "the per-package rewriting is applied to another Diagnostics value than the finder's result (the accumulated ones): the finder's warnings and errors are dropped, and older ones are reported again inside this package")
+		for _, ci := range callsIn(host) {
+			if ci.Common().StaticCallee() != nil || ci.Common().IsInvoke() {
+				continue
+			}
+			if u, ok := ci.Common().Value.(*ssa.UnOp); ok {
+				if fa, ok := u.X.(*ssa.FieldAddr); ok && fieldOf(fa) != nil && fieldOf(fa).Name() == "Diagnostics" {
+					for _, a := range ci.Common().Args {
+						if !isDiagnosticsType(a.Type()) {
+							continue
+						}
+						isRew := func(v ssa.Value) bool {
+							v = canon(v)
+							if v == ssa.Value(rewrite) {
+								return true
+							}
+							if ph, ok := v.(*ssa.Phi); ok {
+								for _, e := range ph.Edges {
+									if canon(e) == ssa.Value(rewrite) {
+										return true
+									}
+								}
+							}
+							return false
+						}
+						c.check(isRew(a), R, name, "tracer gets the rewritten diagnostics", p.Pos(ci.Pos()), "the callback's argument is the rewriting's result", "the tracer is handed another Diagnostics value than the rewritten finder diagnostics (the ones accumulated so far): it misses this package's warnings")
+					}
+				}
+			}
+		}
+		eachInstr(host, func(in ssa.Instruction) {
+			cl, ok := in.(*ssa.Call)
+			if !ok {
+				return
+			}
+			bi, ok := cl.Call.Value.(*ssa.Builtin)
+			if !ok || bi.Name() != "append" || !isDiagnosticsType(cl.Type()) || len(cl.Call.Args) != 2 {
+				return
+			}
+			if !p.backSlice(cl.Call.Args[1], 0)[fd] {
+				return
+			}
+			direct := func(v ssa.Value) bool {
+				v = canon(v)
+				if v == ssa.Value(rewrite) || v == ssa.Value(fd) {
+					return true
+				}
+				if ph, ok := v.(*ssa.Phi); ok {
+					for _, e := range ph.Edges {
+						if ce := canon(e); ce == ssa.Value(rewrite) || ce == ssa.Value(fd) {
+							return true
+						}
+					}
+				}
+				return false
+			}
+			c.check(!direct(cl.Call.Args[0]), R, name, "merge appends to what was accumulated", p.Pos(cl.Pos()), "append(accumulated, rewritten...)", "the merge starts from the finder's diagnostics instead of the accumulated ones: everything reported before — an earlier error included — is discarded, so a failed build can look clean")
+		})
+	}
 	// what leaves the function is the rewritten value: the finder's own result names files relative to the
 	// package it was shown; the only things done with it are measuring it, rewriting it per package, and
 	// merging it on the edge where it is empty
@@ -1875,6 +1947,30 @@ func ruleC12DiagSource(c *Checker) {
 				}
 			})
 			c.check(wrapped, R, p.FuncName(fn), fmt.Sprintf("return %d wraps", i), p.Pos(r.Pos()), "elements of the wrapping type", "what is returned is not built from wrapped elements")
+			fromRecv := false
+			eachInstr(fn, func(in ssa.Instruction) {
+				st, ok := in.(*ssa.Store)
+				if !ok {
+					return
+				}
+				fa, ok := st.Addr.(*ssa.FieldAddr)
+				if !ok || fieldOf(fa) == nil || fieldOf(fa).Name() != "wrapped" {
+					return
+				}
+				switch x := canon(st.Val).(type) {
+				case *ssa.UnOp:
+					if ia, ok := x.X.(*ssa.IndexAddr); ok && canon(ia.X) == ssa.Value(recv) {
+						fromRecv = true
+					}
+				case *ssa.Extract:
+					if nx, ok := x.Tuple.(*ssa.Next); ok {
+						if rg, ok := nx.Iter.(*ssa.Range); ok && canon(rg.X) == ssa.Value(recv) {
+							fromRecv = true
+						}
+					}
+				}
+			})
+			c.check(fromRecv, R, p.FuncName(fn), fmt.Sprintf("return %d wraps the receiver's elements", i), p.Pos(r.Pos()), "the wrapped diagnostic is an element of the receiver", "the elements that are wrapped are not the receiver's (the loop ranges over the freshly made, still empty result): every finder diagnostic becomes a wrapper around nil, and the first use panics")
 		}
 	}
 	// (c)
